@@ -36,8 +36,11 @@ def st(path):
     return {"op": "stat", "path": path, "triple": [len(path), 0x80000000 + len(path), 7]}
 
 
-def ls(path, n=2):
-    return {"op": "list", "path": path, "entries": [[k + 1, k * 3, 9, ("%s-e%d" % (path, k)).encode().hex()] for k in range(n)]}
+def ls(path, n=2, trailer=None):
+    st_ = {"op": "list", "path": path, "entries": [[k + 1, k * 3, 9, ("%s-e%d" % (path, k)).encode().hex()] for k in range(n)]}
+    if trailer:
+        st_["trailer"] = trailer.hex()      # bytes the device writes after the DONE record before it closes
+    return st_
 
 
 def pl(path, size=300, cb=None):
@@ -66,6 +69,8 @@ FIXED = [
 POOL = [lambda i: sh("c%d" % i, 0), lambda i: sh("c%d" % i, 1), lambda i: sh("c%d" % i, 3), lambda i: sh("e%d" % i, 2, op="exec_out"), lambda i: st("/s%d" % i), lambda i: ls("/d%d" % i, 3),
         lambda i: pl("/f%d" % i, 700), lambda i: ps("/p%d" % i, 6000), lambda i: sh("t%d" % i, 3, op="streaming_shell", take=None), lambda i: sh("u%d" % i, 3, op="streaming_shell", take=1),
         lambda i: pl("/g%d" % i, 150, cb="ok"), lambda i: sh("d%d" % i, 2, decode=True)]
+# (kept apart, so that the indices of the entries above -- and with them the existing cases -- stay what they were)
+POOL_EXTRA = [lambda i: ls("/t%d" % i, 2, trailer=b"DENT" + b"\x01\x00\x00\x00" * 3 + b"\x05\x00\x00\x00after")]
 
 
 def gen_cases(tier, seed):
@@ -536,6 +541,9 @@ def run_case(case):
             mine = []
             for _ in range(rng.choice([1, 1, 2])):
                 mine.append(rng.choice(POOL)(k))
+                k += 1
+            if (a + k + len(case["seed"])) % 4 == 0:
+                mine.append(POOL_EXTRA[0](k))        # a listing after whose DONE the device says more before it closes
                 k += 1
             steps.append(mine)
         force_lp = 0.0
